@@ -20,7 +20,7 @@ pub fn meta() -> Meta {
     Meta {
         id: "C19",
         level: "fault_enumeration",
-        rule: "valid .skf files — small 64-bit (3 samples), small 128-bit, one-sample 64- and 128-bit files (their snappy chunk is stored uncompressed), a file of 180 samples x 200 highly compressible rows (more than 64 kB of CBOR, hence several snappy frames), thorough: a 6 kb genome file with incompressible k-mers, and the files an in-place delete and an in-place weed write — each subjected to EVERY truncation length 0..len-1 and EVERY single-bit flip of every byte; each damaged image goes through MergeSkaArray::<u64>::load then ::<u128>::load as in main: both must fail, or the accepted content (k, strand mode, names, k-mers, bases through the public API) must equal the original. CLI confirmation on the small file: every subcommand on every truncation (quick: stride 3) and on a stride of flips must exit non-zero exactly when the loader rejects, and a rejected delete/weed must leave the file byte-identical; the same damaged images under a name without the .skf suffix, next to intact files named <name>.skf, <name>.skf.skf and <name>.bak, must be rejected as well (a neighbour is never read instead). Non-trivial = a damaged image (all are); distinct outcomes = rejected / accepted-identical.".into(),
+        rule: "valid .skf files — small 64-bit (3 samples), small 128-bit, one-sample 64- and 128-bit files (their snappy chunk is stored uncompressed), a file of 250 samples x 1200 rows in about ten snappy chunks (faults placed relative to the chunk structure, at a stride), a file of 180 samples x 200 highly compressible rows (more than 64 kB of CBOR, hence several snappy frames), thorough: a 6 kb genome file with incompressible k-mers, and the files an in-place delete and an in-place weed write — each subjected to EVERY truncation length 0..len-1 and EVERY single-bit flip of every byte; each damaged image goes through MergeSkaArray::<u64>::load then ::<u128>::load as in main: both must fail, or the accepted content (k, strand mode, names, k-mers, bases through the public API) must equal the original. CLI confirmation on the small file: every subcommand on every truncation (quick: stride 3) and on a stride of flips must exit non-zero exactly when the loader rejects, and a rejected delete/weed must leave the file byte-identical; the same damaged images under a name without the .skf suffix, next to intact files named <name>.skf, <name>.skf.skf and <name>.bak, must be rejected as well (a neighbour is never read instead). Non-trivial = a damaged image (all are); distinct outcomes = rejected / accepted-identical.".into(),
         assumptions: vec!["exactly one fault per image (one truncation or one flipped bit)".into(), "flips that change only the stored per-k-mer counts, k_bits or version string are reported separately (not part of the statement's 'samples, k-mers or bases')".into()],
         exhaustive_when_uncapped: true,
     }
@@ -116,6 +116,23 @@ pub fn prepare(tier: crate::explore::Tier, seed: u64, dir: &str) {
             add("several frames", &p);
         }
     }
+    // many snappy frames (about 600 kB of CBOR, ten 64 KiB chunks, several of them wholly inside the matrix of bases):
+    // 250 samples x 1200 rows of compressible bases; explored at a stride (see run)
+    {
+        let n = 250;
+        let mut rows = BTreeMap::new();
+        for i in 0..1200u64 {
+            let key = String::from_utf8(crate::enumerate::nth_string(b"ACGT", 8, i * 53 + 1)).unwrap();
+            let row: Vec<u8> = (0..n).map(|j| b"ACGT-"[((i * 7 + j as u64 * 3 + (i * j as u64) % 5) % 5) as usize]).collect();
+            rows.insert(key, row);
+        }
+        let t = Table { k: 9, rc: true, names: (0..n).map(|i| format!("smp{i}")).collect(), rows };
+        let p = scratch::path("c19_manyframes.skf");
+        let a: MergeSkaArray<u64> = real::forge_array(&t);
+        if a.save(&p).is_ok() {
+            add("many frames", &p);
+        }
+    }
     if ctx.tier.thorough() {
         let k = 31;
         let g = crate::enumerate::repeat_free(6000, k, 0, ctx.seed + 19);
@@ -195,6 +212,66 @@ pub fn run(ctx: &Ctx, rep: &mut Report) {
         }
         let len = s.bytes.len();
         rep.extra.insert(format!("max_bytes[{}]", s.name), json!(len));
+        if s.name == "many frames" {
+            // too large for every position: the chunk structure of the snappy frame format is read (1 type byte, 3
+            // length bytes, then the chunk) and the faults are placed relative to it
+            let mut starts: Vec<usize> = Vec::new();
+            let mut p = 0usize;
+            while p + 4 <= len {
+                starts.push(p);
+                let l = s.bytes[p + 1] as usize | (s.bytes[p + 2] as usize) << 8 | (s.bytes[p + 3] as usize) << 16;
+                p += 4 + l;
+            }
+            rep.extra.insert("max_chunks[many frames]".into(), json!(starts.len()));
+            let mut cuts: std::collections::BTreeSet<usize> = (0..len).step_by(61).collect();
+            for st in &starts {
+                for d in 0..=9usize {
+                    if st + d < len {
+                        cuts.insert(st + d);
+                    }
+                    if *st >= d {
+                        cuts.insert(st - d);
+                    }
+                }
+            }
+            for l in cuts {
+                idx += 1;
+                if !ctx.mine(idx) {
+                    continue;
+                }
+                check_image(rep, s, &s.bytes[..l], &format!("truncation to {l} of {len} bytes"), &path);
+            }
+            let mut img = s.bytes.clone();
+            let mut flips: Vec<(usize, u8)> = Vec::new();
+            for st in &starts {
+                // all bits of the chunk header and of the checksum behind it
+                for d in 0..8usize {
+                    if st + d < len {
+                        for bit in 0..8u8 {
+                            flips.push((st + d, bit));
+                        }
+                    }
+                }
+            }
+            for pos in (0..len).step_by(23) {
+                flips.push((pos, (pos % 8) as u8));
+            }
+            for (pos, bit) in flips {
+                idx += 1;
+                if !ctx.mine(idx) {
+                    continue;
+                }
+                img[pos] ^= 1 << bit;
+                check_image(rep, s, &img, &format!("bit {bit} of byte {pos} flipped"), &path);
+                img[pos] ^= 1 << bit;
+                if idx % 256 == 0 && ctx.expired() {
+                    rep.capped = true;
+                    return;
+                }
+            }
+            rep.completed.push("'many frames': truncations around every chunk boundary and at every 61st byte; flips of every header and checksum bit and of one bit in every 23rd byte".into());
+            continue;
+        }
         // truncations
         for l in 0..len {
             idx += 1;
